@@ -3,7 +3,8 @@ trees created under tempfile.mkdtemp() (removed in a `finally`).
 
 Scenario lines (in addition to every line of the `tree` model, see harness/models/tree.py):
 
-    fs dir :<path> | fs file :<path>          the tree below the temporary root (declared first)
+    fs dir :<path> | fs file :<path> | fs rm :<path>   the tree below the temporary root; `fs` lines BETWEEN the
+                                              populations change it (new files / directories, removed subtrees)
     pop p<k> nest=<0|1> trim=<0|1> [root=<spelling>]     p<k> = DirectoryResourcePopulator(root, nest, trim)
         spellings of the one temporary root T: abs (T), abs_s (T/), abs_dot (T/.), rel (basename, cwd = parent),
         rel_s (basename/), dot_rel (./basename), rel_dot (basename/.), empty ('' with cwd = T), dot ('.'),
@@ -39,20 +40,60 @@ from harness.models import tree as tree_model
 from harness.models.tree import comps
 
 
-def dec_args(tok):
-    """`a.b|k=v.j=w` -> (('a','b'), {'k':'v','j':'w'}) ; `-` = nothing"""
+class Uncopyable:
+    """an argument object that refuses to be copied (a connection, a device, ...)"""
+
+    def __deepcopy__(self, memo):
+        raise TypeError('cannot be copied')
+
+    def __copy__(self):
+        raise TypeError('cannot be copied')
+
+    def __reduce_ex__(self, protocol):
+        raise TypeError('cannot be pickled')
+
+
+def make_arg_object(tok):
+    """L<n> a list, D<n> a dict, U<n> an object that cannot be copied, G<n> a generator, K<n> a lock"""
+    import threading
+    return {'L': lambda: [tok], 'D': lambda: {tok: 1}, 'U': Uncopyable,
+            'G': lambda: (x for x in (1, 2)), 'K': threading.Lock}[tok[0]]()
+
+
+def is_object_tok(t):
+    return len(t) >= 2 and t[0] in 'LDUGK' and t[1:].isdigit()
+
+
+def dec_args(tok, registry=None):
+    """`a.b|k=v.j=w` -> (('a','b'), {'k':'v','j':'w'}) ; `-` = nothing.  Tokens L0, D1, U2, G3, K4 stand for
+    OBJECTS (one per token and scenario, kept in `registry`): the factory must receive those very objects"""
     if tok == '-':
         return (), {}
+
+    def val(t):
+        if registry is not None and is_object_tok(t):
+            if t not in registry:
+                registry[t] = make_arg_object(t)
+            return registry[t]
+        return t
     pos, _, kw = tok.partition('|')
-    args = tuple(t for t in pos.split('.') if t)
-    kwargs = dict(t.split('=', 1) for t in kw.split('.') if t)
+    args = tuple(val(t) for t in pos.split('.') if t)
+    kwargs = {k: val(v) for k, v in (t.split('=', 1) for t in kw.split('.') if t)}
     return args, kwargs
 
 
-def enc_args(args, kwargs):
-    pos = '.'.join(str(a) for a in args)
+def enc_args(args, kwargs, registry=None):
+    def name(a):
+        for t, o in (registry or {}).items():
+            if o is a:
+                return t
+        for t, o in (registry or {}).items():
+            if type(o) is type(a) and t[0] in 'LD' and o == a:
+                return 'copyof:' + t         # equal, but not the object the rule was given
+        return str(a) if isinstance(a, str) else 'foreign:' + type(a).__name__
+    pos = '.'.join(name(a) for a in args)
     if kwargs:
-        return pos + '|' + '.'.join(f'{k}={v}' for k, v in kwargs.items())
+        return pos + '|' + '.'.join(f'{k}={name(v)}' for k, v in kwargs.items())
     return pos or '-'
 
 
@@ -108,6 +149,7 @@ class Run(tree_model.Run):
         self.made = 0
         self.calls = 0
         self.hints = []
+        self.arg_objects = {}    # token -> the object handed to add_rule
         self.cur = None          # (call, populator) while a population runs
 
     # ---- the factories handed to add_rule
@@ -122,7 +164,7 @@ class Run(tree_model.Run):
                 self.loaded = []
                 self.tries = 0
                 rel = pt.relpath(pt.abspath(filename), run.root)
-                run.obs.append(f'made h{k} fac={fac} path=:{rel} args={enc_args(args, kwargs)}')
+                run.obs.append(f'made h{k} fac={fac} path=:{rel} args={enc_args(args, kwargs, run.arg_objects)}')
 
             def load(self):
                 self.tries += 1
@@ -201,12 +243,20 @@ class Run(tree_model.Run):
         try:
             for ln in self.lines:
                 t = ln.split()
-                if not t or t[0] == 'glob':
+                if not t or t[0] in ('glob', 'react'):
                     continue
                 if t[0] == 'fs':
                     cs = norm(t[2][1:])
                     full = pt.join(self.root, *cs)
-                    if t[1] == 'dir':
+                    if t[1] == 'rm':
+                        # the tree changes between populations: a file or a whole subtree disappears
+                        if pt.isdir(full):
+                            shutil.rmtree(full)
+                        elif pt.exists(full):
+                            os.remove(full)
+                        self.dirs = [d for d in self.dirs if d[:len(cs)] != cs]
+                        self.files = [f for f in self.files if f[:len(cs)] != cs]
+                    elif t[1] == 'dir':
                         os.makedirs(full, exist_ok=True)
                         self.dirs.append(cs)
                     else:
@@ -221,11 +271,14 @@ class Run(tree_model.Run):
                         trim_extensions=bool(int(d['trim']))), 'rules': [], 'spell': spell}
                 elif t[0] == 'rule':
                     d = dict(x.split('=', 1) for x in t[3:])
-                    args, kwargs = dec_args(d['args'])
+                    args, kwargs = dec_args(d['args'], self.arg_objects)
                     exts = [] if d['exts'] == '-' else d['exts'].split(',')
                     p = self.pops[t[1]]
-                    p['obj'].add_rule(t[2][1:], self.factory(int(d['fac'])), *args,
-                                      file_exts=container(d.get('cont', 'list'), exts), **kwargs)
+                    try:
+                        p['obj'].add_rule(t[2][1:], self.factory(int(d['fac'])), *args,
+                                          file_exts=container(d.get('cont', 'list'), exts), **kwargs)
+                    except Exception as e:       # noqa  (add_rule has no reason to fail: an observation)
+                        self.obs.append(f'rule-raised {t[1]} {len(p["rules"])} {self.exc_name(e)}')
                     p['rules'].append((t[2][1:], exts))
                 elif t[0] == 'newmap':
                     k = int(t[1][1:])
